@@ -515,3 +515,215 @@ Proof.
   intros Hn E. pose proof (write_slices_post fuel slices w) as H. rewrite E in H.
   eapply wpost_no_fault; eassumption.
 Qed.
+
+(* ------------------------------------------------------------------------------------------ *)
+(* Part 4: write_all on a StreamWriter = a sequence of stream records                          *)
+(* ------------------------------------------------------------------------------------------ *)
+
+(* one stream record carrying the chunk c, with the automatic padding *)
+Definition rec_of (stype id : N) (c : bytes) : bytes :=
+  hdr_encode stype id (len c) (auto_padding (len c)) ++ c ++ zeros (auto_padding (len c)).
+
+(* successive chunks of at most 65535 bytes *)
+Fixpoint chunks_f (fuel : nat) (data : bytes) : list bytes :=
+  match fuel with
+  | O => []
+  | S f =>
+    match data with
+    | [] => []
+    | _ => let n := N.min (len data) 65535 in take n data :: chunks_f f (drop n data)
+    end
+  end.
+Definition chunks (data : bytes) : list bytes := chunks_f (length data) data.
+
+Definition stream_records (stype id : N) (data : bytes) : bytes := concat (map (rec_of stype id) (chunks data)).
+
+Lemma length_drop_chunk (data : bytes) : data <> [] ->
+  (length (drop (N.min (len data) 65535) data) < length data)%nat.
+Proof.
+  intros Hne. apply len_pos_nonnil in Hne. unfold drop. rewrite skipn_length. unfold len in *. lia.
+Qed.
+
+Lemma chunks_f_enough f1 : forall f2 data, (length data <= f1)%nat -> (length data <= f2)%nat ->
+  chunks_f f1 data = chunks_f f2 data.
+Proof.
+  induction f1 as [|f1 IH]; intros f2 data H1 H2.
+  - destruct data; [|cbn [length] in H1; lia]. destruct f2; reflexivity.
+  - destruct f2 as [|f2].
+    + destruct data; [reflexivity|cbn [length] in H2; lia].
+    + cbn [chunks_f]. destruct data as [|x d]; [reflexivity|].
+      set (data := x :: d) in *. assert (Hne : data <> []) by discriminate.
+      pose proof (length_drop_chunk data Hne) as Hl. cbv zeta. f_equal. apply IH; lia.
+Qed.
+
+Lemma chunks_nil : chunks [] = [].
+Proof. reflexivity. Qed.
+
+(* the defining equation *)
+Lemma chunks_eq data : data <> [] ->
+  chunks data = take (N.min (len data) 65535) data :: chunks (drop (N.min (len data) 65535) data).
+Proof.
+  intros Hne. pose proof (length_drop_chunk data Hne) as Hl. unfold chunks.
+  destruct data as [|x d]; [tauto|].
+  cbn [length chunks_f]. cbv zeta. f_equal.
+  apply chunks_f_enough; [|lia]. cbn [length] in Hl. lia.
+Qed.
+
+Lemma chunks_ind (P : bytes -> Prop) :
+  P [] -> (forall data, data <> [] -> P (drop (N.min (len data) 65535) data) -> P data) -> forall data, P data.
+Proof.
+  intros H0 Hs data. remember (length data) as m eqn:Hm.
+  assert (Hle : (length data <= m)%nat) by lia. clear Hm. revert data Hle.
+  induction m as [|m IH]; intros data Hle.
+  - destruct data; [exact H0|cbn [length] in Hle; lia].
+  - destruct data as [|x d]; [exact H0|]. set (data := x :: d) in *.
+    assert (Hne : data <> []) by discriminate. apply Hs; [exact Hne|].
+    apply IH. pose proof (length_drop_chunk data Hne). lia.
+Qed.
+
+(* each byte of data is in exactly one chunk, in order *)
+Theorem chunks_concat data : concat (chunks data) = data.
+Proof.
+  induction data as [|data Hne IH] using chunks_ind; [reflexivity|].
+  rewrite chunks_eq by exact Hne. cbn [concat]. rewrite IH. apply take_drop.
+Qed.
+
+Theorem chunks_sizes data : Forall (fun c => 0 < len c <= 65535) (chunks data).
+Proof.
+  induction data as [|data Hne IH] using chunks_ind; [constructor|].
+  rewrite chunks_eq by exact Hne. constructor; [|exact IH].
+  apply len_pos_nonnil in Hne. rewrite len_take. lia.
+Qed.
+
+(* all chunks but the last are full *)
+Theorem chunks_full data c rest : chunks data = c :: rest -> rest <> [] -> len c = 65535.
+Proof.
+  intros E Hr. destruct data as [|x d]; [discriminate E|]. set (data := x :: d) in *.
+  rewrite chunks_eq in E by discriminate. injection E as Ec Er. subst c.
+  rewrite len_take. destruct (N.leb_spec (len data) 65535) as [Hle|Hgt]; [|lia].
+  exfalso. apply Hr. rewrite <- Er. rewrite drop_all by lia. reflexivity.
+Qed.
+
+Lemma stream_records_nil stype id : stream_records stype id [] = [].
+Proof. reflexivity. Qed.
+
+Lemma stream_records_eq stype id data : data <> [] ->
+  stream_records stype id data =
+    rec_of stype id (take (N.min (len data) 65535) data) ++ stream_records stype id (drop (N.min (len data) 65535) data).
+Proof. intros Hne. unfold stream_records. rewrite chunks_eq by exact Hne. reflexivity. Qed.
+
+(* every record is well-formed and carries its chunk *)
+Theorem rec_of_wf stype id c : known_type stype = true -> id < 65536 -> len c <= 65535 ->
+  let pad := auto_padding (len c) in
+  let rec := rec_of stype id c in
+  hdr_decode (take 8 rec) = HOk stype id (len c) pad /\ pad < 8 /\ (len c + pad) mod 8 = 0 /\
+  len rec = 8 + len c + pad /\ len rec mod 8 = 0 /\
+  take (len c) (drop 8 rec) = c /\ drop (8 + len c) rec = zeros pad.
+Proof.
+  intros Ht Hid Hc pad rec. destruct (pad_rule (len c)) as [P1 [P2 _]]. fold pad in P1, P2.
+  assert (Hd8 : drop 8 rec = c ++ zeros pad).
+  { unfold rec, rec_of. fold pad. rewrite drop_app_ge by (rewrite hdr_encode_len; lia).
+    rewrite hdr_encode_len. replace (8 - 8) with 0 by lia. apply drop_0. }
+  assert (Hlen : len rec = 8 + len c + pad).
+  { unfold rec, rec_of. fold pad. rewrite !len_app, hdr_encode_len, len_zeros. lia. }
+  split.
+  { unfold rec, rec_of. fold pad. rewrite take_app_le by (rewrite hdr_encode_len; lia).
+    rewrite take_all by (rewrite hdr_encode_len; lia). apply hdr_roundtrip; [exact Ht|exact Hid|lia|lia]. }
+  split; [exact P1|]. split; [exact P2|]. split; [exact Hlen|]. split; [rewrite Hlen; lia|].
+  split; [rewrite Hd8; apply take_len_app|].
+  replace (8 + len c) with (8 + len c)%N by reflexivity.
+  rewrite <- (drop_drop (len c) 8). rewrite Hd8. apply drop_len_app.
+Qed.
+
+Theorem stream_records_wf stype id data : known_type stype = true -> id < 65536 ->
+  Forall (fun c => 0 < len c <= 65535 /\
+            hdr_decode (take 8 (rec_of stype id c)) = HOk stype id (len c) (auto_padding (len c)) /\
+            auto_padding (len c) < 8 /\ (len c + auto_padding (len c)) mod 8 = 0)
+         (chunks data).
+Proof.
+  intros Ht Hid. pose proof (chunks_sizes data) as H. rewrite Forall_forall in *. intros c Hc.
+  specialize (H c Hc). split; [exact H|]. destruct (rec_of_wf stype id c Ht Hid) as (A & B & C & _); [lia|]. tauto.
+Qed.
+
+Lemma slices_rec stype id data :
+  concat [hdr_encode stype id (N.min (len data) 65535) (auto_padding (N.min (len data) 65535));
+          take (N.min (len data) 65535) data; zeros (auto_padding (N.min (len data) 65535))]
+  = rec_of stype id (take (N.min (len data) 65535) data).
+Proof.
+  unfold rec_of. rewrite len_take.
+  replace (N.min (N.min (len data) 65535) (len data)) with (N.min (len data) 65535) by lia.
+  cbn [concat]. rewrite app_nil_r. reflexivity.
+Qed.
+
+Lemma writer_write_all_S f stype id data w : writer_write_all (S f) stype id data w =
+  match data with
+  | [] => Ok None w
+  | _ =>
+    let n := N.min (len data) 65535 in
+    match write_slices (io_fuel w (n + 300)) [hdr_encode stype id n (auto_padding n); take n data; zeros (auto_padding n)] w with
+    | Ok None w' => writer_write_all f stype id (drop n data) w'
+    | x => x
+    end
+  end.
+Proof. reflexivity. Qed.
+
+Theorem writer_write_all_post stype id fuel : forall data w,
+  wpost false (stream_records stype id data) w (writer_write_all fuel stype id data w).
+Proof.
+  induction fuel as [|f IH]; intros data w.
+  - cbn [writer_write_all wpost]. exists [], (stream_records stype id data). split; [reflexivity|apply io_rel_refl].
+  - rewrite writer_write_all_S. destruct data as [|x d]; [cbn [wpost]; apply io_rel_refl|].
+    set (data := x :: d). assert (Hne : data <> []) by discriminate. cbv zeta.
+    rewrite (stream_records_eq stype id data Hne).
+    set (n := N.min (len data) 65535).
+    match goal with |- context [write_slices ?fu ?sl w] =>
+      pose proof (write_slices_post fu sl w) as H; unfold n in H; rewrite slices_rec in H; fold n in H;
+      revert H; destruct (write_slices fu sl w) as [[k|] w1|o w1]; intros H end.
+    + apply wpost_ext; [discriminate|exact H].
+    + cbn [wpost] in H. eapply wpost_pre; [exact H|apply IH].
+    + apply wpost_ext; [discriminate|exact H].
+Qed.
+
+Lemma writer_write_all_fuel_gen stype id fuel : forall data w,
+  (N.to_nat ((len data + 65534) / 65535) + 1 <= fuel)%nat ->
+  forall w', writer_write_all fuel stype id data w <> Halt OFuel w'.
+Proof.
+  induction fuel as [|f IH]; intros data w Hf w'; [lia|].
+  rewrite writer_write_all_S. destruct data as [|x d]; [discriminate|].
+  set (data := x :: d) in *. assert (Hne : data <> []) by discriminate. cbv zeta.
+  set (n := N.min (len data) 65535) in *.
+  match goal with |- context [write_slices ?fu ?sl w] =>
+    pose proof (write_slices_fuel fu sl w) as H;
+    revert H; destruct (write_slices fu sl w) as [[k|] w1|o w1]; intros H end.
+  - discriminate.
+  - apply IH. rewrite len_drop. apply len_pos_nonnil in Hne. unfold n. lia.
+  - intros E. injection E as -> ->. eapply H; [|reflexivity].
+    unfold io_fuel. cbn [length]. lia.
+Qed.
+
+(* item 4 *)
+Theorem writer_write_all_spec fuel stype id data w :
+  wspec false (stream_records stype id data) w (fuel < N.to_nat (len data / 65535) + 2)%nat
+        (writer_write_all fuel stype id data w).
+Proof.
+  apply wpost_wspec; [apply writer_write_all_post|]. intros w' E.
+  destruct (Nat.le_gt_cases (N.to_nat (len data / 65535) + 2) fuel) as [Hle|Hgt]; [|exact Hgt].
+  exfalso. eapply writer_write_all_fuel_gen; [|exact E]. lia.
+Qed.
+
+Corollary writer_write_all_ok fuel stype id data w w' : writer_write_all fuel stype id data w = Ok None w' ->
+  wlog w' = wlog w ++ stream_records stype id data /\ same_but_io w w'.
+Proof.
+  intros E. pose proof (writer_write_all_post stype id fuel data w) as H. rewrite E in H. cbn [wpost] in H.
+  split; [apply io_rel_wlog; exact H|apply H].
+Qed.
+
+Corollary writer_write_all_empty fuel stype id w : (0 < fuel)%nat -> writer_write_all fuel stype id [] w = Ok None w.
+Proof. destruct fuel; [lia|reflexivity]. Qed.
+
+Corollary writer_write_all_no_fault fuel stype id data w k w' :
+  no_fault (wscript w) -> writer_write_all fuel stype id data w <> Ok (Some k) w'.
+Proof.
+  intros Hn E. pose proof (writer_write_all_post stype id fuel data w) as H. rewrite E in H.
+  eapply wpost_no_fault; eassumption.
+Qed.
